@@ -120,10 +120,26 @@ fn resolve_foreign_keys(
     for (locale, value_path) in foreign_keys_paths {
         let value = values
             .get_value_at(&locale, &value_path)
+            .or_else(|| get_merged_plural_at(values, &locale, &value_path))
             .unwrap_at("resolve_foreign_keys_1");
         value.resolve_foreign_key(values, &locale, default_locale, &value_path)?;
     }
     Ok(())
+}
+
+/// The paths are registered when the files are parsed, if a foreign key is inside a plural form (`key_one: "$t(..)"`)
+/// that key has since been merged into the plural `key`.
+fn get_merged_plural_at<'a>(
+    values: &'a LocalesOrNamespaces,
+    locale: &Key,
+    path: &KeyPath,
+) -> Option<&'a parsed_value::ParsedValue> {
+    let mut path = path.clone();
+    let form_key = path.pop_key()?;
+    let (base_key, _) = form_key.name.rsplit_once('_')?;
+    let base_key = base_key.strip_suffix("_ordinal").unwrap_or(base_key);
+    path.push_key(Key::new(base_key)?);
+    values.get_value_at(locale, &path)
 }
 
 fn check_locales(
